@@ -15,3 +15,11 @@ class WritesHyperParameter:
     def fit(self, X):
         self.tol = X.shape[0]
         return self
+
+
+def wrap_floor_half(d, cell):
+    return d - np.floor(d / cell + 0.5) * cell
+
+
+def wrap_floor(d, cell):
+    return d - np.floor(d / cell) * cell
